@@ -177,6 +177,47 @@ def flat_close(vals, rats, rel=FLAT_REL):
     return True
 
 
+def cal_ok(cal, nfields):
+    """a `cal` entry of a case: one [intercept, gradient] pair (or None = the default Calibration()) per initial field, finite
+    floats, gradient not zero"""
+    if cal is None:
+        return True
+    if not isinstance(cal, list) or len(cal) != nfields:
+        return False
+    for q in cal:
+        if q is None:
+            continue
+        if not (isinstance(q, list) and len(q) == 2 and all(isinstance(v, (int, float)) and not isinstance(v, bool) and math.isfinite(v) for v in q)):
+            return False
+        if q[1] == 0 or abs(q[0]) > 2.0**40 or not (2.0**-20 <= abs(q[1]) <= 2.0**20):
+            return False
+    return True
+
+
+def read_ok(rd):
+    return (isinstance(rd, dict) and (rd.get("element") is None or (isinstance(rd["element"], int) and not isinstance(rd["element"], bool)))
+            and (rd.get("layer") is None or (isinstance(rd["layer"], int) and not isinstance(rd["layer"], bool)))
+            and isinstance(rd.get("calibrate", False), bool) and isinstance(rd.get("flat", False), bool))
+
+
+def read_values(arr, names):
+    """the array a read returned as nested lists of floats, one list per pixel (1 value for an unstructured array)"""
+    if arr.dtype.names is None:
+        return np.asarray(arr, dtype=np.float64)[..., None]
+    if list(arr.dtype.names) != list(names):
+        return None
+    return np.stack([np.asarray(arr[nm], dtype=np.float64) for nm in names], axis=-1)
+
+
+def model_values(j):
+    """a driver image / stack of exact rationals as a float64 array (each rational correctly rounded)"""
+    def conv(x, depth):
+        if depth == 0:
+            return [int(q[0]) / int(q[1]) for q in x]
+        return [conv(y, depth - 1) for y in x]
+    return np.array(conv(j["data"], len(j["shape"])), dtype=np.float64).reshape(tuple(j["shape"]) + (-1,))
+
+
 class StepRaised(Exception):
     """a change of the object that the model performs raised in pewlib"""
 
@@ -310,7 +351,28 @@ class C09(Prop):
         case["element"] = rng.randrange(case["nel"])
         self.gen_payload(rng, case, plain=0.75)
         self.gen_ctor(rng, case)
+        if rng.random() < 0.3:
+            self.gen_cal(rng, case)
         return case
+
+    def gen_cal(self, rng, case):
+        """calibrations of the elements (a quarter of them the default one, never all) and 1-3 calls of get made before the
+        observations of every state: calibrate mostly, one element or all, a layer or the reconstruction, flat or not"""
+        nel = case["nel"]
+        cal = []
+        for _ in range(nel):
+            if rng.random() < 0.25:
+                cal.append(None)
+                continue
+            b, g = rng.choice([0.0, 1.0, -2.0, 0.5, 0.25, 3.0, 10.0]), rng.choice([2.0, 0.5, 4.0, 3.0, 0.7, -1.0, 1.0, 0.125])
+            cal.append([b, 2.0 if (b, g) == (0.0, 1.0) else g])
+        if all(q is None for q in cal):
+            cal[rng.randrange(nel)] = [1.0, 2.0]
+        case["cal"] = cal
+        case["creads"] = [{"element": None if rng.random() < 0.55 else rng.randrange(3), "calibrate": rng.random() < 0.85,
+                           "flat": rng.random() < 0.3, "layer": rng.randrange(16) if rng.random() < 0.6 else None}
+                          for _ in range(rng.choice([1, 1, 2, 2, 3]))]
+        case["creads_at"] = rng.choice(["first", "first", "mid"])
 
     def gen_ctor(self, rng, case):
         """how the object is made: SRRLaser(...) mostly, SRRLaser.from_list (float64 stacks) or SRRLaser.from_lasers"""
@@ -343,6 +405,8 @@ class C09(Prop):
                     "shapes": [[l0, w + l1 * M + rng.choice([0, 0, 2])], [l1, w + l0 * M + rng.choice([0, 1])]], "short": None,
                     "wmode": "exact", "nel": rng.choice([1, 1, 2]), "element": rng.randrange(2)}
             self.gen_payload(rng, case, plain=0.7)
+            if rng.random() < 0.3:
+                self.gen_cal(rng, case)
             if rng.random() < 0.3:
                 case["kind"], case["order"] = "history", "std"
                 case["steps"] = [rng.choice([{"op": "pop"}, {"op": "append"}, {"op": "replace", "layer": n - 1}, {"op": "rename", "map": [["A", "D"]]},
@@ -408,6 +472,8 @@ class C09(Prop):
         case["kind"] = "history"
         self.gen_payload(rng, case, plain=0.5)
         self.gen_ctor(rng, case)
+        if rng.random() < 0.5:
+            self.gen_cal(rng, case)
         M, n = case["mag"], case["n"]
         (l0, s0), (l1, s1) = case["shapes"]
         pairs_cur = case["pairs"]
@@ -424,7 +490,7 @@ class C09(Prop):
         steps = []
         for _ in range(rng.choice([1, 1, 1, 1, 1, 2, 2, 2, 3])):
             op = rng.choice(["replace", "edit", "edit", "config", "config", "rename", "rename", "add", "add", "remove", "remove",
-                             "setdata", "setdata", "setdata", "append", "pop", "params", "scribble"])
+                             "setdata", "setdata", "setdata", "append", "pop", "params", "scribble", "cal"])
             i = rng.randrange(n)
             if op == "remove" and len(names) < 2:
                 op = "add"
@@ -501,6 +567,10 @@ class C09(Prop):
                 n -= 1
             elif op == "scribble":
                 steps.append({"op": "scribble"})
+            elif op == "cal":
+                steps.append({"op": "cal", "field": rng.randrange(3), "b": rng.choice([0.0, 1.0, 0.5, -2.0]), "g": rng.choice([2.0, 4.0, 3.0, 0.5])})
+                if "creads" not in case:
+                    case["creads"] = [{"element": None, "calibrate": True, "flat": False, "layer": rng.randrange(16)}]
             elif op == "params":
                 # another integer magnification for which the stack is still long enough
                 cands = [m for m in (1, 2, 3, 4, 5) if m != M and w + l1 * m <= s0 and w + l0 * m <= s1 and vox(l0, l1, m, n, pairs_cur) <= 3500]
@@ -601,6 +671,27 @@ class C09(Prop):
         yield {**hbase, "steps": [{"op": "rename", "map": [["A", "C"]], "obs": True}, {"op": "rename", "map": [["C", "A"]], "obs": True},
                                   {"op": "edit", "layer": 1, "cells": "all"}]}
         yield {**hbase, "steps": [{"op": "add", "name": "D", "dtype": "f4"}, {"op": "remove", "names": ["A", "B"]}]}
+        # ---- calls of get(calibrate=True, ...) before the observations: the store must be what it was
+        cbase = {**base, "spotsize": 35.0, "mag": 1, "warmup": 0.25, "pairs": [[0, 2], [1, 2]], "shapes": [[3, 7], [4, 6]], "n": 3,
+                 "nel": 2, "element": 1, "cal": [[1.0, 2.0], None]}
+        yield {**cbase, "creads": [{"element": None, "calibrate": True, "flat": False, "layer": k} for k in range(3)]}
+        yield {**cbase, "creads": [{"element": None, "calibrate": True, "flat": False, "layer": 1}], "creads_at": "mid"}
+        yield {**cbase, "creads": [{"element": None, "calibrate": True, "flat": False, "layer": None},
+                                   {"element": None, "calibrate": True, "flat": True, "layer": None}]}
+        yield {**cbase, "cal": [[0.5, 3.0], [-2.0, 0.5]], "creads": [{"element": 0, "calibrate": True, "flat": False, "layer": 2},
+                                                                     {"element": 1, "calibrate": True, "flat": True, "layer": None},
+                                                                     {"element": 1, "calibrate": True, "flat": False, "layer": None}]}
+        yield {**cbase, "dtype": "f4", "scale": 0.5, "creads": [{"element": None, "calibrate": True, "flat": False, "layer": 0}]}
+        yield {**cbase, "dtype": "i8", "creads": [{"element": None, "calibrate": True, "flat": False, "layer": 0},
+                                                  {"element": 0, "calibrate": True, "flat": False, "layer": 1}]}
+        hcal = {**hbase, "cal": [[1.0, 2.0], [0.25, 4.0]], "creads": [{"element": None, "calibrate": True, "flat": False, "layer": 1},
+                                                                      {"element": None, "calibrate": True, "flat": False, "layer": None}]}
+        yield {**hcal, "steps": [{"op": "rename", "map": [["A", "B"], ["B", "A"]]}]}
+        yield {**hcal, "steps": [{"op": "add", "name": "D", "dtype": "f8"}, {"op": "remove", "names": ["A"]}]}
+        yield {**hcal, "steps": [{"op": "cal", "field": 1, "b": 0.0, "g": 2.0, "obs": True}, {"op": "edit", "layer": 1, "cells": [[0, 0]]}]}
+        yield {**hcal, "steps": [{"op": "setdata", "names": ["P", "A"], "via": "list"}], "creads_at": "mid"}
+        yield {**hcal, "steps": [{"op": "scribble"}], "ctor": "from_list"}
+        yield {**hcal, "steps": [{"op": "replace", "layer": 1}], "ctor": "from_lasers"}
         # ---- sample dtypes and payloads of a fresh stack
         for dt, extra in (("f4", {"scale": 0.25}), ("i8", {"base": -(2**40)}), ("i4", {}), ("u2", {}), ("f8", {"scale": 0.5, "base": 2**40 + 1})):
             yield {**base, "spotsize": 70.0, "mag": 2, "warmup": 0.25, "pairs": [[1, 3], [1, 2]], "shapes": [[3, 7], [2, 9]], "n": 3,
@@ -694,31 +785,47 @@ class C09(Prop):
             raise core.InternalError("generator: magnification is not the intended float integer")
         cfg = make_srr_cfg(case)
         ctor = case.get("ctor", "init")
+        # calibrations of the elements (None / no entry: the default Calibration()) and the calls of get made before the
+        # observations of every state (`creads`)
+        from pewlib.calibration import Calibration
+
+        cal = case.get("cal")
+        creads = case.get("creads", [])
+        if not cal_ok(cal, len(fields)) or not isinstance(creads, list) or not all(read_ok(rd) for rd in creads):
+            return outcome(None, None, None, spec_ok=True, model_ok=True, undetermined=True, hyp=False, features=[])
+        caldict = {f[0]: Calibration(intercept=float(q[0]), gradient=float(q[1])) for f, q in zip(fields, cal or []) if q is not None}
+        cal0 = [[f[0], rat(float(q[0])), rat(float(q[1]))] if q is not None else [f[0], rat(0.0), rat(1.0)]
+                for f, q in zip(fields, cal or [None] * len(fields))]
         if ctor == "from_list" and all(f[1] == "<f8" for f in fields):
-            # the classmethod builds float64 structured layers from one plain array per element and layer
+            # the classmethod builds float64 structured layers from one plain array per element and layer; it takes no
+            # calibrations: they are put into the public dict afterwards
             laser = SRRLaser.from_list([f[0] for f in fields], [[np.array(a[f[0]]) for f in fields] for a in layers], config=cfg)
+            for nm, c in caldict.items():
+                laser.calibration[nm] = c
         elif ctor == "from_lasers":
-            # stacked from one Laser per layer (raster parameters of the first one, default warm-up and offsets), then given the config
+            # stacked from one Laser per layer (raster parameters and calibrations of the first one, default warm-up and
+            # offsets), then given the config
             from pewlib.config import Config
             from pewlib.laser import Laser
 
             raster = Config(spotsize=case["spotsize"], speed=case["speed"], scantime=case["scantime"])
-            laser = SRRLaser.from_lasers([Laser(a, config=raster) for a in layers])
+            laser = SRRLaser.from_lasers([Laser(a, calibration=caldict if k == 0 else None, config=raster) for k, a in enumerate(layers)])
             laser.config = cfg
         else:
             ctor = "init"
-            laser = SRRLaser(layers, config=cfg)
+            laser = SRRLaser(layers, calibration=caldict if (caldict or cal is not None) else None, config=cfg)
         st = {"ctor": ctor, "fields": fields, "enc": enc, "sops": [], "fscale": fscale, "fresh": fresh,
-              "low": 1 if abs(int(case.get("base", 1))) >= 2**30 else None}
+              "low": 1 if abs(int(case.get("base", 1))) >= 2**30 else None, "cal0": cal0}
+        cur = {"fields": [list(f) for f in fields], "shapes": [list(x) for x in stack_shapes(case)]}
         if kind == "history":
-            return self.eval_history(case, ctx, laser, st)
-        r = self.eval_state(case, ctx, laser, cfg, st)
+            return self.eval_history(case, ctx, laser, st, cur)
+        r = self.eval_state(case, ctx, laser, cfg, st, cur=cur)
         if r.get("excluded"):
             return outcome(None, None, None, spec_ok=True, model_ok=True, undetermined=True, hyp=False, features=[])
         return outcome(r["impl"], r["model"], r["spec"], spec_ok=r["spec_ok"], model_ok=r["model_ok"],
                        undetermined=r["undet"], features=r["feats"], note=r["note"])
 
-    def eval_state(self, case, ctx, laser, cfg, st, order="std"):
+    def eval_state(self, case, ctx, laser, cfg, st, order="std", cur=None):
         """every observation of the property on `laser` in its CURRENT state, against the model/specification that the driver
         computes from the INPUTS: the stack the object was built with (`st["fields"]`, `st["enc"]`) and the changes made to it since
         (`st["sops"]`, applied by Lean's `Stack.applyAll`), the constructor arguments + later changes of the configuration described
@@ -752,10 +859,25 @@ class C09(Prop):
                 arrays = [arr_enc, raster_enc]
         except Exception as ex:
             arr, arr_note = None, {"raises": type(ex).__name__, "msg": str(ex)[:200]}
+        # ---- the calls of get made BEFORE the observations of this state (`creads`: any mixture of calibrate / element /
+        # layer / flat), resolved against the fields and layers the object holds now; reconstructions only when accepted
+        valid = bool(laser.check_config_valid(laser.config))
+        reads = []
+        if cur is not None:
+            cf, cn = cur["fields"], len(cur["shapes"])
+            for rd in case.get("creads", []):
+                lay = None if rd.get("layer") is None else rd["layer"] % cn
+                if lay is None and not valid:
+                    continue
+                reads.append({"element": None if rd.get("element") is None else cf[rd["element"] % len(cf)][0],
+                              "calibrate": bool(rd.get("calibrate", False)), "flat": bool(rd.get("flat", False)), "layer": lay})
         rep = ctx.driver.call("c09.srr", cfg=srr_cfg_json(case), fields=st["fields"], layers=st["enc"], stack_ops=st["sops"],
-                              arrays=arrays)
+                              arrays=arrays, cal0=st["cal0"], fscale=rat(float(st["fscale"])), reads=reads)
         if not rep["stack_ok"]:
             raise core.InternalError("a change of the stack that the model does not cover reached eval_state")
+        if not (rep["reads_are_spec"] and rep["store_unchanged_by_reads"]):
+            raise core.InternalError("the mechanism model of SRRLaser.get contradicts its specification (theorems get_eq_spec / "
+                                     "reads_do_not_change_store)")
         mj = rep["config"]
         if not mj["integer_mag"] or mj["mag"] != case["mag"]:
             raise core.InternalError("generator: the model's float64 magnification is not the intended integer")
@@ -783,9 +905,66 @@ class C09(Prop):
             setter_exact = srep["sets"][0]["observed_exact"]
 
         # ---- implementation, observed at check_config_valid / get / krisskross and the config's array round trip
-        valid = bool(laser.check_config_valid(laser.config))
         impl = {"valid": valid}
-        returned = []  # the arrays the reconstructions handed out (a later step of a history may write into them)
+        returned = []  # the arrays the reads handed out (a later step of a history may write into them)
+        creads_at = case.get("creads_at", "first")
+        cr_impl, cr_model, cr_feats = [], [], set()
+
+        def do_reads():
+            """the calls of `creads` on the object; each result against the driver's (model of SRRLaser.get on the stored layers
+            and the calibrations: 1e-12 of the magnitudes involved, 2^-20 for float32 fields; exact without calibrate).  A field
+            of integer dtype that get(calibrate=True) without an element wrote back into its own dtype is not compared."""
+            cal_now = {c[0]: (float(unrat(c[1])), float(unrat(c[2]))) for c in rep["cal"]}
+            vmax = [max([abs(v) for L in rep["stack"] for px in L["data"] for v in px[k:k + 1]] + [1]) * scales[k] for k in range(nel)]
+            for rd, mj in zip(reads, rep["reads_model"]):
+                kw = {"calibrate": rd["calibrate"], "flat": rd["flat"], "layer": rd["layer"]}
+                tag = {"args": rd}
+                try:
+                    res = laser.get(rd["element"], **kw)
+                except Exception as ex:
+                    cr_impl.append({**tag, "raises": type(ex).__name__, "msg": str(ex)[:200]})
+                    cr_model.append({**tag, "raises": True} if mj is None else {**tag, "shape": mj["shape"], "agrees_with_model": True})
+                    continue
+                returned.append(res)
+                if mj is None:
+                    cr_impl.append({**tag, "shape": list(res.shape)})
+                    cr_model.append({**tag, "raises": True})
+                    continue
+                sel = list(range(nel)) if rd["element"] is None else [names.index(rd["element"])]
+                got = read_values(res, [names[k] for k in sel])
+                ok = got is not None and list(res.shape) == mj["shape"]
+                first = None
+                if ok:
+                    want = model_values(mj)
+                    ok = want.shape == got.shape
+                    for pos, k in enumerate(sel if ok else []):
+                        if rd["calibrate"] and rd["element"] is None and kinds[k] != "f":
+                            cr_feats.add("calibrated read of all elements: integer field written back truncated, not compared")
+                            continue
+                        b, g = cal_now.get(names[k], (0.0, 1.0))
+                        if rd["calibrate"] and (b, g) != (0.0, 1.0):
+                            tol = (2.0**-20 if fields[k][1].endswith("f4") else 1e-12) * (vmax[k] + abs(b)) / abs(g)
+                        else:
+                            tol = (2.0**-20 * vmax[k]) if (rd["flat"] and rd["layer"] is None and fields[k][1].endswith("f4")) else (
+                                1e-12 * vmax[k] if (rd["flat"] and rd["layer"] is None) else 0.0)
+                        d = np.abs(got[..., pos] - want[..., pos])
+                        if rd["flat"] and rd["layer"] is None and rd["element"] is None and kinds[k] != "f":
+                            continue  # structured flat image of an integer field: truncated by pewlib (see assumptions)
+                        if not np.all(d <= tol):
+                            ok = False
+                            at = np.unravel_index(int(np.argmax(d)), d.shape)
+                            first = {"field": names[k], "at": [int(x) for x in at], "got": float(got[..., pos][at]), "model": float(want[..., pos][at])}
+                            break
+                cr_impl.append({**tag, "shape": list(res.shape), "agrees_with_model": bool(ok), **({"first_difference": first} if first else {})})
+                cr_model.append({**tag, "shape": mj["shape"], "agrees_with_model": True})
+                cr_feats.add("cread:" + ("calibrated" if rd["calibrate"] else "plain") + (":layer" if rd["layer"] is not None else (":flat" if rd["flat"] else ":recon"))
+                             + (":element" if rd["element"] is not None else ":all"))
+                if rd["calibrate"] and rd["layer"] is not None and rd["element"] is None and any(
+                        cal_now.get(nm, (0.0, 1.0)) != (0.0, 1.0) for nm in names):
+                    cr_feats.add("cread:in-place-calibration-of-a-layer-copy")
+
+        if reads and creads_at == "first":
+            do_reads()
         if valid:
             try:
                 if order == "flat-first":
@@ -799,30 +978,37 @@ class C09(Prop):
                 kk = laser.krisskross()
                 returned.append(kk)
                 impl["krisskross"] = enc3(kk, names, scales)
-                el = laser.get(names[e])
-                returned.append(el)
-                impl["element"] = {"shape": list(el.shape),
-                                   "data": [[tokens(v, scales[e]) for v in row] for row in el]}
+                impl["elements"], impl["flat_elements"] = [], []
+                for k in range(nel):  # get(name) / get(name, flat=True) for EVERY element
+                    el = laser.get(names[k])
+                    returned.append(el)
+                    impl["elements"].append({"shape": list(el.shape), "data": [[tokens(v, scales[k]) for v in row] for row in el]})
                 fl = laser.get(flat=True)
                 returned.append(fl)
                 impl["flat"] = {"shape": list(fl.shape), "data": [[[float(fl[nm][r, c]) / sc for c in range(fl.shape[1])]
                                                                     for r in range(fl.shape[0])] for nm, sc in zip(names, scales)]}
-                fe = laser.get(names[e], flat=True)
-                returned.append(fe)
-                impl["flat_element"] = {"shape": list(fe.shape), "data": [[float(v) / scales[e] for v in row] for row in fe]}
+                for k in range(nel):
+                    fe = laser.get(names[k], flat=True)
+                    returned.append(fe)
+                    impl["flat_elements"].append({"shape": list(fe.shape), "data": [[float(v) / scales[k] for v in row] for row in fe]})
             except Exception as ex:
                 impl["recon"] = {"raises": type(ex).__name__, "msg": str(ex)[:200]}
+        if reads and creads_at != "first":
+            do_reads()  # between the reconstructions and the layer reads
         impl["offsets_exact"] = setter_exact
         impl["layers"], impl["layers_flat"] = [], []
         impl["layers_element"] = []
         for i in range(n):
             for key, kw in (("layers", {}), ("layers_flat", {"flat": True})):
                 try:
-                    impl[key].append(enc2(laser.get(layer=i, **kw), names, scales))
+                    lr = laser.get(layer=i, **kw)
+                    returned.append(lr)
+                    impl[key].append(enc2(lr, names, scales))
                 except Exception as ex:
                     impl[key].append({"raises": type(ex).__name__, "msg": str(ex)[:200]})
             try:  # get(element, layer=i): that element of the layer
                 le = laser.get(names[e], layer=i, flat=bool(i % 3 == 1))
+                returned.append(le)
                 impl["layers_element"].append({"shape": list(le.shape), "data": [tokens(row, scales[e]) for row in le]} if le.ndim == 2
                                               else {"shape": list(le.shape)})
             except Exception as ex:
@@ -867,9 +1053,14 @@ class C09(Prop):
                 return False
             if not (core.canon(impl["recon"]) == core.canon(target) and core.canon(impl["krisskross"]) == core.canon(target)):
                 return False
-            if core.canon(impl["element"]) != core.canon(pick_element(target, e)):
+            if len(impl.get("elements", [])) != nel or len(impl.get("flat_elements", [])) != nel:
                 return False
-            if impl["flat"]["shape"] != target["shape"][:2] or impl["flat_element"]["shape"] != target["shape"][:2]:
+            for k in range(nel):
+                if core.canon(impl["elements"][k]) != core.canon(pick_element(target, k)):
+                    return False
+                if impl["flat_elements"][k]["shape"] != target["shape"][:2]:
+                    return False
+            if impl["flat"]["shape"] != target["shape"][:2]:
                 return False
             for k in range(nel):
                 if kinds[k] != "f":
@@ -878,7 +1069,7 @@ class C09(Prop):
                     continue
                 if "data" not in flats[k] or not flat_close(impl["flat"]["data"][k], flats[k]["data"], rels[k]):
                     return False
-            return flat_close(impl["flat_element"]["data"], flats[e]["data"], rels[e])
+            return all("data" in flats[k] and flat_close(impl["flat_elements"][k]["data"], flats[k]["data"], rels[k]) for k in range(nel))
 
         def same(a, b):
             return core.canon(a) == core.canon(b)
@@ -910,6 +1101,12 @@ class C09(Prop):
                     and agrees(impl["config"], model["config"]) and agrees(impl["roundtrip"], model["roundtrip"]))
         if arrays:
             model_ok = model_ok and same(impl["array"], model["array"]) and agrees(impl["from_raster_array"], model["from_raster_array"])
+        # the calls of get made before the observations: what they RETURN is a matter of model and code (no clause of the property
+        # speaks of calibrated values); that the observations after them still follow the geometric model is the specification
+        impl["creads"], model["creads"], spec["creads"] = cr_impl, cr_model, "no clause about the values; the store must be unchanged"
+        if len(cr_impl) != len(reads):
+            raise core.InternalError("not every call of creads was made")
+        model_ok = model_ok and same(cr_impl, cr_model)
 
         # float rounding of the warm-up quotient crosses a tie: the specification does not decide the warm-up in samples, so
         # nothing is demanded of the implementation; the MODEL (exact float64 arithmetic) still has to agree with it
@@ -959,6 +1156,14 @@ class C09(Prop):
                 feats.add("payload:fractional")
             if any(abs(v) >= 2**32 for L in rep["stack"] for px in L["data"][:1] for v in px):
                 feats.add("payload:beyond-2^32")
+        if valid and "data" in impl.get("recon", {}):
+            feats |= cr_feats
+            if cr_impl:
+                feats.add("creads:" + creads_at)
+            if len(mj["offs"]) + (mj["offs"][0] != 0) > n:
+                feats.add("offsets>layers")
+            if any(c[1:] != [rat(0.0), rat(1.0)] for c in rep["cal"]):
+                feats.add("calibration:non-identity")
         note = ""
         if not valid:
             note = "rejected"
@@ -972,13 +1177,13 @@ class C09(Prop):
                 "shapes": [[L["rows"], L["cols"]] for L in rep["stack"]]}
 
     # ------------------------------------------------------------------ histories on one object
-    def eval_history(self, case, ctx, laser, st):
+    def eval_history(self, case, ctx, laser, st, cur):
         """observe, change the SAME object step by step, observe again (after the last step, and after every step marked "obs").
         A step changes the object and, independently, the abstract description (`st["sops"]` for the stack - applied by Lean -,
         `case["ops"]` for the configuration)."""
         order = case.get("order", "std")
         excluded = outcome(None, None, None, spec_ok=True, model_ok=True, undetermined=True, hyp=False, features=[])
-        states = [self.eval_state(case, ctx, laser, laser.config, st, order=order)]
+        states = [self.eval_state(case, ctx, laser, laser.config, st, order=order, cur=cur)]
         if states[0].get("excluded"):
             return excluded
         cur = {"fields": states[0]["fields"], "shapes": states[0]["shapes"]}
@@ -999,18 +1204,19 @@ class C09(Prop):
             if r == "excluded":
                 return excluded
             if stp.get("obs") or k == len(steps) - 1:
-                states.append(self.eval_state(case2, ctx, laser, laser.config, st, order=order))
+                states.append(self.eval_state(case2, ctx, laser, laser.config, st, order=order, cur=cur))
                 if states[-1].get("excluded"):
                     return excluded
         if len(states) == 1:
-            states.append(self.eval_state(case2, ctx, laser, laser.config, st, order=order))
+            states.append(self.eval_state(case2, ctx, laser, laser.config, st, order=order, cur=cur))
         impl = {"states": [x["impl"] for x in states]}
         model = {"states": [x["model"] for x in states]}
         spec = {"states": [x["spec"] for x in states]}
         feats = set()
         if all(x["valid"] and "data" in x["impl"].get("recon", {}) for x in states):
             feats = {"history", f"history:order-{order}", f"history:steps{len(steps)}", f"history:observed{len(states)}x"} | hfeats
-            feats |= {f for f in states[-1]["feats"] if f.startswith(("mag", "layers", "elements", "dtype:", "payload:", "ctor:", "lines"))}
+            feats |= {f for x in states for f in x["feats"] if f.startswith(("mag", "layers", "elements", "dtype:", "payload:", "ctor:", "lines",
+                                                                               "cread", "calibrat", "offsets>"))}
         elif not all(x["valid"] for x in states):
             feats = {"history:rejected"}
         return outcome(impl, model, spec, spec_ok=all(x["spec_ok"] for x in states), model_ok=all(x["model_ok"] for x in states),
@@ -1148,6 +1354,7 @@ class C09(Prop):
                 from pewlib.calibration import Calibration
 
                 laser.calibration = {x: Calibration() for x in nm2}
+                st["sops"].append({"op": "set_cal", "cal": [[x, rat(0.0), rat(1.0)] for x in nm2]})
             hfeats.add("history:setdata")
             if [f[0] for f in fields2] != names:
                 hfeats |= {"history:setdata:names", "history:element-set-change"}
@@ -1173,6 +1380,16 @@ class C09(Prop):
                 return "excluded"
             laser.data.pop()
             hfeats |= {"history:pop-layer", "history:layer-count-change"}
+        elif op == "cal":
+            # laser.calibration[name] = Calibration(intercept, gradient): the public dict, one item
+            from pewlib.calibration import Calibration
+
+            if not cal_ok([[stp.get("b"), stp.get("g")]], 1) or not isinstance(stp.get("field"), int):
+                return "excluded"
+            nm = names[stp["field"] % len(names)]
+            laser.calibration[nm] = Calibration(intercept=float(stp["b"]), gradient=float(stp["g"]))
+            st["sops"].append({"op": "cal_item", "name": nm, "intercept": rat(float(stp["b"])), "gradient": rat(float(stp["g"]))})
+            hfeats.add("history:calibration-assigned")
         elif op == "scribble":
             # the caller writes into the arrays earlier reconstructions returned (as get(calibrate=True) does in place):
             # neither the stack nor the configuration changes
@@ -1372,7 +1589,16 @@ class C09(Prop):
                     for key in ("names", "dtype", "scale", "shapes", "n"):
                         if key in stp:
                             yield {**case, "steps": steps[:k] + [{x: v for x, v in stp.items() if x != key}] + steps[k + 1:]}
-        for key in ("base", "scale", "dtype"):
+        if case.get("creads"):
+            rds = case["creads"]
+            if len(rds) > 1:
+                for k in range(len(rds)):
+                    yield {**case, "creads": rds[:k] + rds[k + 1:]}
+            if case.get("creads_at", "first") != "first":
+                yield {**case, "creads_at": "first"}
+        elif "cal" in case and not any(stp["op"] == "cal" for stp in case.get("steps", [])):
+            yield {x: v for x, v in case.items() if x not in ("cal", "creads", "creads_at")}
+        for key in ("base", "scale", "dtype", "ctor"):
             if key in case:
                 yield {x: v for x, v in case.items() if x != key}
         if case["n"] > 2:
